@@ -221,3 +221,365 @@ Proof.
     destruct (len (e_dgram_q (f_ep f)) <? e_dgram_cap (f_ep f)); cbn [fst]; [|reflexivity].
     match goal with |- context [e_dgram_park ?x] => destruct (e_dgram_park x) end; reflexivity.
 Qed.
+
+(* ---------------------------------------------------------------- C07: opening discipline *)
+
+Definition taken (e : ep) (v : N) : bool :=
+  (v =? 0) || match slot_get (e_slots e) v with Some _ => true | None => false end.
+
+(* the value drawn next and the state after the draw *)
+Definition draw (e : ep) : N * ep :=
+  match e_rng e with
+  | v :: r => (v, set_rng e r (e_fallback e))
+  | [] => let v := (e_fallback e + 1) mod 4294967296 in (v, set_rng e [] v)
+  end.
+
+Lemma alloc_id_unfold fuel e :
+  alloc_id fuel e =
+  let '(v, e') := draw e in
+  match fuel with
+  | O => (v, e')
+  | S n => if taken e' v then alloc_id n e' else (v, e')
+  end.
+Proof. destruct fuel; unfold draw, taken; cbn [alloc_id]; destruct (e_rng e); reflexivity. Qed.
+
+Lemma draw_slots e : e_slots (snd (draw e)) = e_slots e.
+Proof. unfold draw. destruct (e_rng e); reflexivity. Qed.
+
+(* An endpoint never proposes flow id 0 or an id it already uses: the id chosen is the first
+   drawn value that is neither.  [all_taken] = every one of the first fuel+1 draws is taken
+   (excluded for finite scripts by the non-repeating fallback sequence). *)
+Fixpoint all_taken (fuel : nat) (e : ep) : bool :=
+  let '(v, e') := draw e in
+  match fuel with
+  | O => true
+  | S n => taken e' v && all_taken n e'
+  end.
+
+Theorem alloc_id_nonzero_unused fuel : forall e id e',
+  alloc_id fuel e = (id, e') -> all_taken fuel e = false ->
+  id <> 0 /\ slot_get (e_slots e) id = None /\ e_slots e' = e_slots e.
+Proof.
+  induction fuel as [|n IH]; intros e id e' H A; rewrite alloc_id_unfold in H; cbn [all_taken] in A;
+    destruct (draw e) as [v e1] eqn:D; pose proof (draw_slots e) as S; rewrite D in S; cbn [snd] in S.
+  - discriminate.
+  - destruct (taken e1 v) eqn:T; cbn [andb] in A.
+    + destruct (IH _ _ _ H A) as (Z & G & S'). rewrite S in G. repeat split; auto. congruence.
+    + inversion H; subst. unfold taken in T. apply orb_false_iff in T as [Z G].
+      rewrite S in G. repeat split; auto.
+      * intros ->. discriminate.
+      * destruct (slot_get (e_slots e) id); [discriminate|reflexivity].
+Qed.
+
+(* one attempt of a stream request: either the attempts are used up (FlowIdRejected, nothing
+   sent) or exactly one Connect carrying our own window and the requested target is sent
+   and the remaining attempts decrease *)
+Theorem open_attempt_spec f k o f' r :
+  open_attempt f k o = (f', r) ->
+  (op_retries o = 0 /\ r = [2; 5] /\ f_out f' = f_out f /\ e_slots (f_ep f') = e_slots (f_ep f)) \/
+  (0 < op_retries o /\
+   exists id e1, alloc_id 64 (f_ep f) = (id, e1) /\
+     slot_get (e_slots (f_ep f')) id = Some (SRequested k) /\
+     ((e_tx_closed e1 = true /\ r = [2; 2] /\ f_out f' = f_out f) \/
+      (e_tx_closed e1 = false /\ r = R_PENDING /\
+       f_out f' = f_out f ++ [MBin (encode (Connect id (e_rwnd e1) (op_port o) (op_host o)))] /\
+       exists o', nth_opt (e_opens (f_ep f')) k = nth_opt (upd (e_opens e1) k o') k /\
+                  op_retries o' = op_retries o - 1))).
+Proof.
+  unfold open_attempt. destruct (N.eqb_spec (op_retries o) 0) as [Z|Z].
+  - intros E; inversion E; subst. left. repeat split; auto.
+  - destruct (alloc_id 64 (f_ep f)) as [id e1] eqn:A. intros E. right. split; [lia|].
+    exists id, e1. split; [reflexivity|].
+    destruct (e_tx_closed (set_slots e1 (slot_set (e_slots e1) id (SRequested k)))) eqn:T;
+      cbn [e_tx_closed set_slots] in T.
+    + inversion E; subst. cbn [f_ep with_ep e_slots set_opens set_slots f_out].
+      split; [apply slot_get_set_same|]. left. auto.
+    + inversion E; subst. unfold emit. cbn [f_ep with_ep e_tx_closed set_slots]. rewrite T.
+      cbn [f_ep with_ep e_slots set_opens set_slots f_out e_rwnd e_opens].
+      split; [apply slot_get_set_same|]. right. repeat split; auto.
+      eexists. split; [reflexivity|]. reflexivity.
+Qed.
+
+(* an accepted Connect: exactly one stream object, with the requested host and port, our
+   send credit = the window the peer advertised, and the window we advertise = ours *)
+Lemma to_accept_q_out f oid : f_out (to_accept_q f oid) = f_out f.
+Proof.
+  unfold to_accept_q. destruct (len _ <? _); [|reflexivity].
+  destruct (e_accept_park _); reflexivity.
+Qed.
+
+Theorem connect_accepted f id w p h :
+  id <> 0 -> slot_get (e_slots (f_ep f)) id = None ->
+  e_tx_closed (f_ep f) = false -> e_mux_alive (f_ep f) = true ->
+  let '(f', r) := process_frame f (Connect id w p h) false in
+  let oid := len (e_streams (f_ep f)) in
+  r = RxContinue /\
+  slot_get (e_slots (f_ep f')) id = Some (SEstablished oid) /\
+  f_out f' = f_out f ++ [MBin (encode (Acknowledge id (e_rwnd (f_ep f))))] /\
+  (forall s, nth_error (e_streams (f_ep f) ++ [s]) (N.to_nat oid) = Some s) /\
+  st_credit (new_stream (f_ep f) id w h p) = w /\ st_host (new_stream (f_ep f) id w h p) = h /\
+  st_port (new_stream (f_ep f) id w h p) = p.
+Proof.
+  intros Z G T M. cbn [process_frame].
+  destruct (N.eqb_spec id 0); [contradiction|]. rewrite G. cbn [orb].
+  unfold add_stream.
+  set (g := with_ep f (set_slots (set_streams (f_ep f) (e_streams (f_ep f) ++ [new_stream (f_ep f) id w h p]))
+                        (slot_set (e_slots (set_streams (f_ep f) (e_streams (f_ep f) ++ [new_stream (f_ep f) id w h p]))) id
+                                  (SEstablished (len (e_streams (f_ep f))))))).
+  assert (Tg : e_tx_closed (f_ep g) = false) by exact T.
+  unfold emit_ok. rewrite Tg. cbn [negb].
+  destruct (emit_out g (Acknowledge id (e_rwnd (f_ep f))) Tg) as [Eep Eout].
+  rewrite Eep. assert (Mg : e_mux_alive (f_ep g) = true) by exact M. rewrite Mg.
+  split; [reflexivity|]. split.
+  - rewrite to_accept_q_slots, Eep. unfold g. cbn [f_ep with_ep e_slots set_slots set_streams].
+    apply slot_get_set_same.
+  - split; [rewrite to_accept_q_out, Eout; reflexivity|].
+    split; [|repeat split].
+    intros s. unfold len. rewrite Nat2N.id, nth_error_app2, Nat.sub_diag by lia. reflexivity.
+Qed.
+
+(* the Acknowledge of our Connect: our credit is the window the peer advertised *)
+Theorem connect_acknowledged f id n k o :
+  slot_get (e_slots (f_ep f)) id = Some (SRequested k) ->
+  nth_opt (e_opens (f_ep f)) k = Some o -> op_rx_dropped o = false ->
+  let '(f', r) := process_frame f (Acknowledge id n) false in
+  let oid := len (e_streams (f_ep f)) in
+  r = RxContinue /\ slot_get (e_slots (f_ep f')) id = Some (SEstablished oid) /\
+  f_out f' = f_out f /\ st_credit (new_stream (f_ep f) id n [] 0) = n.
+Proof.
+  intros G O D. cbn [process_frame]. rewrite G. unfold add_stream.
+  cbn [f_ep with_ep e_opens set_slots set_streams]. rewrite O, D.
+  split; [reflexivity|].
+  match goal with |- context [resolve_open ?g k ?v] => destruct (resolve_open_ctl g k v) as (A & B & _) end.
+  rewrite A, B. cbn [f_ep with_ep e_slots set_slots set_streams f_out].
+  split; [apply slot_get_set_same|auto].
+Qed.
+
+(* ---------------------------------------------------------------- C11: datagrams *)
+
+Theorem send_dgram_spec f fid port host data :
+  e_mux_alive (f_ep f) = true ->
+  (255 < len host -> do_send_dgram f fid port host data = (f, [2; 8])) /\
+  (len host <= 255 -> e_tx_closed (f_ep f) = false ->
+     do_send_dgram f fid port host data =
+       (mkEff (f_ep f) (f_out f ++ [MBin (encode (Datagram fid port host data))]) (f_wakes f) (f_closed f) (f_done f), [0])).
+Proof.
+  intros M. unfold do_send_dgram. rewrite M. cbn [negb]. split.
+  - intros H. destruct (N.ltb_spec 255 (len host)); [reflexivity|lia].
+  - intros H T. destruct (N.ltb_spec 255 (len host)); [lia|]. rewrite T. unfold emit. rewrite T. reflexivity.
+Qed.
+
+(* what was sent arrives with all four fields unchanged (C09's round trip), is appended at the
+   tail of the datagram queue or dropped when it is full, never touches a flow, never
+   suspends the receive side and never ends the connection *)
+Theorem recv_dgram_spec f fid port host data wd :
+  wf (Datagram fid port host data) -> e_mux_alive (f_ep f) = true ->
+  let '(f', r) := process_message f (MBin (encode (Datagram fid port host data))) wd in
+  r = RxContinue /\ f_out f' = f_out f /\
+  e_slots (f_ep f') = e_slots (f_ep f) /\ e_streams (f_ep f') = e_streams (f_ep f) /\
+  e_blocked (f_ep f') = e_blocked (f_ep f) /\
+  e_dgram_q (f_ep f') =
+    (if len (e_dgram_q (f_ep f)) <? e_dgram_cap (f_ep f)
+     then e_dgram_q (f_ep f) ++ [mkDgram fid port host data] else e_dgram_q (f_ep f)).
+Proof.
+  intros W M. cbn [process_message]. rewrite (decode_encode _ W). cbn [process_frame]. rewrite M. cbn [negb].
+  destruct (len (e_dgram_q (f_ep f)) <? e_dgram_cap (f_ep f)); [|repeat split].
+  match goal with |- context [e_dgram_park ?x] => destruct (e_dgram_park x) end; repeat split.
+Qed.
+
+Theorem get_dgram_fifo f d q :
+  e_mux_alive (f_ep f) = true -> e_dgram_q (f_ep f) = d :: q ->
+  let '(f', r) := do_get_dgram f in
+  e_dgram_q (f_ep f') = q /\
+  r = [0; dg_id d; dg_port d] ++ put_lp (dg_host d) ++ put_lp (dg_data d).
+Proof. intros M Q. unfold do_get_dgram. rewrite M, Q. cbn [negb]. split; reflexivity. Qed.
+
+(* ---------------------------------------------------------------- C15: binds *)
+
+Theorem bind_request_sent f bt port host :
+  e_mux_alive (f_ep f) = true ->
+  let '(id, e1) := alloc_id 64 (f_ep f) in
+  e_tx_closed e1 = false ->
+  let '(f', r) := do_bind_req f bt port host in
+  r = R_PENDING /\ f_out f' = f_out f ++ [MBin (encode (Bind id bt port host))] /\
+  slot_get (e_slots (f_ep f')) id = Some (SBind (len (e_binds (f_ep f)))).
+Proof.
+  intros M. destruct (alloc_id 64 (f_ep f)) as [id e1] eqn:A. intros T.
+  unfold do_bind_req. rewrite M, A. cbn [negb e_tx_closed set_slots]. rewrite T.
+  unfold emit. cbn [f_ep with_ep e_tx_closed set_slots]. rewrite T.
+  cbn [f_ep with_ep f_out e_slots set_binds set_slots]. repeat split. apply slot_get_set_same.
+Qed.
+
+(* the responder is shown exactly the request *)
+Theorem bind_request_shown f id bt port host :
+  0 < e_bind_cap (f_ep f) -> e_mux_alive (f_ep f) = true ->
+  len (e_bind_q (f_ep f)) < e_bind_cap (f_ep f) ->
+  let '(f', r) := process_frame f (Bind id bt port host) false in
+  r = RxContinue /\ f_out f' = f_out f /\
+  e_bind_q (f_ep f') = e_bind_q (f_ep f) ++ [mkBindreq id bt port host true].
+Proof.
+  intros C M L. cbn [process_frame].
+  destruct (N.ltb_spec 0 (e_bind_cap (f_ep f))); [|lia]. rewrite M. unfold to_bind_q.
+  destruct (N.ltb_spec (len (e_bind_q (f_ep f))) (e_bind_cap (f_ep f))); [|lia].
+  match goal with |- context [e_nextbind_park ?x] => destruct (e_nextbind_park x) end; repeat split.
+Qed.
+
+(* the answer: Finish resolves that very request with true, Reset with false; the slot is freed *)
+Theorem bind_answer f id k b wd :
+  slot_get (e_slots (f_ep f)) id = Some (SBind k) ->
+  nth_opt (e_binds (f_ep f)) k = Some b -> bp_rx_dropped b = false ->
+  (let '(f', r) := process_frame f (Finish id) wd in
+   r = RxContinue /\ f_out f' = f_out f /\ slot_get (e_slots (f_ep f')) id = None /\
+   exists b', nth_opt (e_binds (f_ep f')) k = Some b' /\ bp_state b' = BGot true) /\
+  (let '(f', r) := process_frame f (Reset id) wd in
+   r = RxContinue /\ f_out f' = f_out f /\ slot_get (e_slots (f_ep f')) id = None /\
+   exists b', nth_opt (e_binds (f_ep f')) k = Some b' /\ bp_state b' = BGot false).
+Proof.
+  intros G B D.
+  assert (U : forall (l : list bindp) x, nth_opt l k = Some b -> nth_opt (upd l k x) k = Some x).
+  { intros l x. unfold nth_opt, upd. generalize (N.to_nat k). intros n. revert l.
+    induction n; intros [|y l] E; cbn in *; try discriminate; auto. }
+  split; cbn [process_frame]; [|unfold close_flow]; rewrite G; unfold close_flow_local;
+    unfold resolve_bind; cbn [f_ep with_ep e_binds set_slots]; rewrite B, D;
+    (destruct (bp_park b); cbn [f_ep with_ep wake f_out e_slots e_binds set_binds set_slots];
+     (split; [reflexivity|]); (split; [reflexivity|]); (split; [apply slot_get_del_same|]);
+     eexists; (split; [apply U; exact B|reflexivity])).
+Qed.
+
+Theorem bind_poll_once f k b v :
+  nth_opt (e_binds (f_ep f)) k = Some b -> bp_rx_dropped b = false -> bp_state b = BGot v ->
+  let '(f', r) := poll_bind f k in
+  r = [0; if v then 1 else 0] /\
+  exists b', nth_opt (e_binds (f_ep f')) k = Some b' /\ bp_state b' = BDone.
+Proof.
+  intros B D S. unfold poll_bind. rewrite B, D, S. split; [reflexivity|].
+  cbn [f_ep with_ep e_binds set_binds]. exists (mkBindp BDone false false). split; [|reflexivity].
+  revert B. unfold nth_opt, upd. generalize (N.to_nat k) (e_binds (f_ep f)). intros n.
+  induction n; intros [|y l] E; cbn in *; try discriminate; auto.
+Qed.
+
+(* ---------------------------------------------------------------- C08: teardown *)
+
+(* after the task has ended every flow is gone and the endpoint is in its final phase *)
+Lemma drain_slots_slots sl : forall f, e_slots (f_ep (drain_slots f sl)) = e_slots (f_ep f).
+Proof.
+  induction sl as [|[id s] r IH]; intros f; cbn [drain_slots]; auto.
+  rewrite IH. destruct (close_flow_local_inhibit_ctl f s id) as (_ & B & _). exact B.
+Qed.
+Lemma drain_slots_out sl : forall f, f_out (drain_slots f sl) = f_out f.
+Proof.
+  induction sl as [|[id s] r IH]; intros f; cbn [drain_slots]; auto.
+  rewrite IH. destruct (close_flow_local_inhibit_ctl f s id) as (A & _). exact A.
+Qed.
+Lemma drain_slots_done sl : forall f, f_done (drain_slots f sl) = f_done f.
+Proof.
+  induction sl as [|[id s] r IH]; intros f; cbn [drain_slots]; auto.
+  rewrite IH. destruct (close_flow_local_inhibit_ctl f s id) as (_ & _ & _ & D). exact D.
+Qed.
+
+Theorem finish_task_spec f code :
+  let f' := finish_task f code in
+  e_slots (f_ep f') = [] /\ e_phase (f_ep f') = Ended /\ f_out f' = f_out f /\
+  f_done f' = f_done f ++ [e_idx (f_ep f'); code] /\
+  e_accept_park (f_ep f') = false /\ e_dgram_park (f_ep f') = false /\ e_nextbind_park (f_ep f') = false.
+Proof.
+  unfold finish_task. cbn zeta.
+  set (g := drain_slots (with_ep f (set_slots (f_ep f) [])) (e_slots (f_ep f))).
+  assert (S : e_slots (f_ep g) = []) by (unfold g; rewrite drain_slots_slots; reflexivity).
+  assert (O : f_out g = f_out f) by (unfold g; rewrite drain_slots_out; reflexivity).
+  assert (Dn : f_done g = f_done f) by (unfold g; rewrite drain_slots_done; reflexivity).
+  destruct (e_accept_park (f_ep g)), (e_dgram_park (f_ep g)), (e_nextbind_park (f_ep g));
+    cbn [f_ep wake f_out f_done e_slots e_phase set_phase set_parks e_accept_park e_dgram_park e_nextbind_park e_idx];
+    repeat split; auto; now rewrite Dn.
+Qed.
+
+(* closing a flow locally makes its writer fail and its reader reach end-of-stream *)
+Theorem close_local_stream f oid id inh s :
+  get_stream (f_ep f) oid = Some s ->
+  exists s', get_stream (f_ep (close_flow_local f (SEstablished oid) id inh)) oid = Some s' /\
+             st_fin s' = true /\ st_txopen s' = false /\ st_rxq s' = st_rxq s /\ st_buf s' = st_buf s.
+Proof.
+  intros G.
+  assert (U : forall (l : list stream) n x y, nth_error l n = Some y -> nth_error (upd_nth l n x) n = Some x).
+  { intros l n. revert l. induction n; intros [|z l] x y E; cbn in *; try discriminate; auto. eauto. }
+  assert (P : forall e o x y, get_stream e o = Some y -> get_stream (put_stream e o x) o = Some x).
+  { intros e o x y E. unfold get_stream, put_stream, nth_opt, upd in *. cbn [e_streams set_streams]. eauto. }
+  (* step 1: disallow_write *)
+  cbn [close_flow_local]. unfold disallow_write. rewrite G.
+  set (s1 := st_set_fin s true).
+  set (g0 := with_ep f (put_stream (f_ep f) oid s1)).
+  assert (G0 : get_stream (f_ep g0) oid = Some s1) by (unfold g0; cbn [f_ep with_ep]; eapply P; eauto).
+  assert (W : exists s2, get_stream (f_ep (wake_writer g0 oid)) oid = Some s2 /\ st_fin s2 = true /\
+                         st_txopen s2 = st_txopen s /\ st_rxq s2 = st_rxq s /\ st_buf s2 = st_buf s).
+  { unfold wake_writer. rewrite G0. destruct (st_wpark s1) eqn:Wp.
+    - exists (st_set_wpark s1 false). split.
+      + destruct (sid_of _ oid); cbn [f_ep with_ep wake]; eapply P; eauto.
+      + repeat split.
+    - exists s1. split; [exact G0|repeat split]. }
+  destruct W as (s2 & G2 & F2 & T2 & R2 & B2).
+  set (g1 := wake_writer g0 oid) in *.
+  set (g2 := if negb (st_fin s) && negb inh then emit g1 (Reset id) else g1).
+  assert (G2' : get_stream (f_ep g2) oid = Some s2).
+  { unfold g2. destruct (negb (st_fin s) && negb inh); [rewrite emit_ep|]; exact G2. }
+  unfold disallow_read. fold g0 g1 g2. rewrite G2'.
+  destruct (st_txopen s2) eqn:Tx.
+  - set (s3 := st_set_txopen s2 false).
+    set (g3 := with_ep g2 (put_stream (f_ep g2) oid s3)).
+    assert (G3 : get_stream (f_ep g3) oid = Some s3) by (unfold g3; cbn [f_ep with_ep]; eapply P; eauto).
+    unfold wake_reader. rewrite G3. destruct (st_rpark s3) eqn:Rp.
+    + exists (st_set_rpark s3 false). split.
+      * destruct (sid_of _ oid); cbn [f_ep with_ep wake]; eapply P; eauto.
+      * repeat split; auto.
+    + exists s3. split; [exact G3|repeat split; auto].
+  - exists s2. repeat split; auto.
+Qed.
+
+Lemma disallow_all_ctl sl : forall f, same_ctl f (disallow_all f sl).
+Proof.
+  induction sl as [|[id [k|oid|k]] r IH]; intros f; cbn [disallow_all]; try apply same_ctl_refl; auto.
+  eapply same_ctl_trans; [apply disallow_write_ctl|apply IH].
+Qed.
+
+Lemma finish_task_closed f code : f_closed (finish_task f code) = f_closed f.
+Proof.
+  unfold finish_task. cbn zeta.
+  set (g := drain_slots (with_ep f (set_slots (f_ep f) [])) (e_slots (f_ep f))).
+  assert (C : f_closed g = f_closed f).
+  { assert (K : forall sl h, f_closed (drain_slots h sl) = f_closed h).
+    { induction sl as [|[id s] r IH]; intros h; cbn [drain_slots]; auto.
+      rewrite IH. destruct (close_flow_local_inhibit_ctl h s id) as (_ & _ & Cc & _). exact Cc. }
+    unfold g. rewrite K. reflexivity. }
+  destruct (e_accept_park (f_ep g)), (e_dgram_park (f_ep g)), (e_nextbind_park (f_ep g)); cbn [f_closed wake]; exact C.
+Qed.
+
+(* an error-caused wind-down does not wait for the peer: it is the end of the task *)
+Lemma wind_down_nowait f code se :
+  exists g, wind_down f code false se = finish_task g code /\
+            f_out g = f_out f /\ f_done g = f_done f /\ f_closed g = true.
+Proof.
+  unfold wind_down. cbn [andb]. eexists. split; [reflexivity|]. cbn [f_out f_done f_closed with_ep].
+  match goal with |- context [disallow_all ?h ?sl] => destruct (disallow_all_ctl sl h) as (A & _ & _ & D) end.
+  rewrite A, D. repeat split.
+Qed.
+
+(* a message that is not a valid frame ends the connection with InvalidFrame at once (no
+   waiting for the peer): every flow is closed, the task future resolves *)
+Theorem invalid_message_ends e b :
+  e_phase e = Running -> e_blocked e = BlNone -> (forall fr, decode b <> Ok fr) ->
+  let '(f', consumed) := deliver (start e) (MBin b) in
+  consumed = true /\ e_phase (f_ep f') = Ended /\ e_slots (f_ep f') = [] /\
+  f_done f' = [e_idx (f_ep f'); 109] /\ f_out f' = [] /\ f_closed f' = true.
+Proof.
+  intros P B D. unfold deliver. cbn [f_ep start]. rewrite P, B. cbn [process_message].
+  assert (K : forall g0, f_out g0 = [] -> f_done g0 = [] ->
+     let f' := wind_down g0 (100 + 9) false false in
+     e_phase (f_ep f') = Ended /\ e_slots (f_ep f') = [] /\
+     f_done f' = [e_idx (f_ep f'); 109] /\ f_out f' = [] /\ f_closed f' = true).
+  { intros g0 O0 D0. cbn zeta. destruct (wind_down_nowait g0 (100 + 9) false) as (g & -> & O & Dn & C).
+    pose proof (finish_task_spec g (100 + 9)) as H. cbn zeta in H.
+    destruct H as (S & Ph & O' & Dn' & _).
+    rewrite finish_task_closed. repeat split; auto; try congruence.
+    rewrite Dn', Dn, D0. reflexivity. }
+  destruct (decode b) as [fr| |] eqn:E; [exfalso; eapply D; eauto| |];
+    (split; [reflexivity|]; apply K; reflexivity).
+Qed.
